@@ -388,16 +388,25 @@ fn gen_c16(seed: u64, idx: usize, tier: Tier) -> RunScenario {
         targets.push(crate::world::TargetSpec { path: "top".into(), uses: vec!["w00".into()], ..Default::default() });
     }
     let cmds: Vec<&str> = if shape == 1 { vec!["fmt", "lint", "test", "build"] } else if rng.chance(1, 2) { vec!["build"] } else { vec!["lint", "build"] };
+    // one scenario in eight: the members of the wide layer all name one shared script in their `definitions`
+    // (same executable, same arguments, different working directories)
+    let shared_script = shape != 2 && rng.chance(1, 8);
     let mut cmd_files = vec![];
-    for t in &targets {
+    for t in targets.iter_mut() {
         for c in &cmds {
-            cmd_files.push(CmdFile { target: t.path.clone(), command: c.to_string(), rel: WorldSpec::default_cmd_rel(&t.path, c), exec: true, broken: false });
+            if shared_script && t.path.starts_with('w') {
+                let rel = format!("tools/shared-{}.sh", c);
+                t.defs.push((c.to_string(), rel.clone()));
+                cmd_files.push(CmdFile { target: t.path.clone(), command: c.to_string(), rel, exec: true, broken: false });
+            } else {
+                cmd_files.push(CmdFile { target: t.path.clone(), command: c.to_string(), rel: WorldSpec::default_cmd_rel(&t.path, c), exec: true, broken: false });
+            }
         }
     }
     // one scenario in eight: one member of the wide layer (not the first) has a command file without the
     // execute bit for one command: the members that are executable still rendezvous and complete, the run
     // reports the failure
-    if wide >= 3 && rng.chance(1, 8) {
+    if wide >= 3 && rng.chance(1, 8) && !shared_script {
         let k = rng.range(1, wide - 1);
         let c = cmds[rng.below(cmds.len())];
         for cf in cmd_files.iter_mut() {
@@ -490,6 +499,22 @@ pub fn check_c16(ctx: &RunCtx, out: &mut Outcome) {
             out.violate("rendezvous", "harness", "harness released a member before all had started".into());
         }
         maxg = maxg.max(hs.len());
+    }
+    // every member that defines the command was really started (a member whose process never ran cannot have
+    // been concurrent with anything), whatever the document says about it
+    if !nonexec && tr.code() == Some(0) {
+        if let Some(d) = &doc {
+            for (c, gs) in result_groups(d) {
+                for g in gs {
+                    for t in g.keys() {
+                        if definition(&ctx.sc.spec, &c, t) == Def::Defined && !tr.helpers.iter().any(|h| h.command == c && h.target == *t) {
+                            out.violate("rendezvous", "member_never_started", format!("'{}' for '{}' is reported {:?} but no process was ever started for it (group of {})", c, t, g.get(t).map(|r| r.status.clone()), g.len()));
+                            return;
+                        }
+                    }
+                }
+            }
+        }
     }
     // the wide layer must really have been one group (else the scenario says nothing about concurrency)
     let wide = ctx.sc.spec.targets.iter().filter(|t| t.path.starts_with('w')).count();
